@@ -143,6 +143,7 @@ class Machine:
         s.choice_ctr = {}
         s.fork_int_selects = False
         s.concretize = False
+        s.access_hook = None
         s.enum_values = None
         s.choice_log = []
 
@@ -168,6 +169,9 @@ class Machine:
         return o
 
     def store(s, p, v, n):
+        if s.access_hook is not None and isinstance(p, Ptr):
+            if s.access_hook(s, 'W', p, n, v):
+                return
         if isinstance(p, Ptr) and isinstance(p.off, Term):
             return s.sym_access(s, 'W', p, n, v)
         o = s.obj(p, n)
@@ -264,6 +268,10 @@ class Machine:
             o.zero = nz
 
     def load(s, p, n, ty):
+        if s.access_hook is not None and isinstance(p, Ptr):
+            r = s.access_hook(s, 'R', p, n, ty)
+            if r is not None:
+                return r
         if isinstance(p, Ptr) and isinstance(p.off, Term):
             return s.sym_access(s, 'R', p, n, ty)
         o = s.obj(p, n)
@@ -1021,6 +1029,24 @@ class Machine:
         if op == 'lshr':
             if isinstance(b, int):
                 return i_ediv(i_unsigned(a, bits), 1 << b)
+        def as_bool(v):
+            if isinstance(v, int) and v in (0, 1):
+                return bool(v)
+            if isinstance(v, Term) and v.op == 'ite' and v.args[1] == 1 and v.args[2] == 0 and not isinstance(v.args[1], Term):
+                return v.args[0]
+            return None
+        if op in ('or', 'and', 'xor'):
+            if op == 'or' and isinstance(a, int) and a == 0:
+                return b
+            if op == 'or' and isinstance(b, int) and b == 0:
+                return a
+            A, B = as_bool(a), as_bool(b)
+            if A is not None and B is not None:
+                if op == 'or':
+                    return mk_ite(mk_or(A, B), 1, 0, 'I')
+                if op == 'and':
+                    return mk_ite(mk_and(A, B), 1, 0, 'I')
+                return mk_ite(mk_or(mk_and(A, mk_not(B)), mk_and(mk_not(A), B)), 1, 0, 'I')
         if op == 'or':
             # x | 1 with x known even (produced by shl) : clang uses this for 2*i+1
             if isinstance(b, int) and isinstance(a, Term) and a.op == 'imul' and isinstance(a.args[1], int) and b >= 0 and a.args[1] % (1 << b.bit_length()) == 0:
